@@ -4,7 +4,11 @@ CONSTANTS
   Qs = {2, 8}
   Rots = {0, 3}
   ExportOn = TRUE
+  MaxKL = 2
+  KLFullN = 2
+  KLSamples = 2
+  KLMaxN = 4
 INIT MInit
 NEXT MNext
-INVARIANTS RefAdmissible EndToEnd ExportInv
+INVARIANTS RefAdmissible EndToEnd SkipRejected ExportInv
 CHECK_DEADLOCK FALSE
